@@ -56,10 +56,10 @@ pub struct ScenarioDef {
 pub fn registry() -> Vec<ScenarioDef> {
     vec![
         ScenarioDef { property: "C01", name: "c01/final-reply", run: c01::run, quick_cases: 6_000, thorough_cases: 500_000, needs_tls: true },
-        ScenarioDef { property: "C02", name: "c02/negotiation", run: c02::run, quick_cases: 8_000, thorough_cases: 1_000_000, needs_tls: true },
+        ScenarioDef { property: "C02", name: "c02/negotiation", run: c02::run, quick_cases: 8_000, thorough_cases: 3_000_000, needs_tls: true },
         ScenarioDef { property: "C03", name: "c03/session", run: c03::run, quick_cases: 4_000, thorough_cases: 600_000, needs_tls: true },
         ScenarioDef { property: "C04", name: "c04/session", run: c04::run, quick_cases: 4_000, thorough_cases: 600_000, needs_tls: true },
-        ScenarioDef { property: "C05", name: "c05/setup", run: hostile::run_c05, quick_cases: 16_000, thorough_cases: 3_000_000, needs_tls: true },
+        ScenarioDef { property: "C05", name: "c05/setup", run: hostile::run_c05, quick_cases: 16_000, thorough_cases: 2_000_000, needs_tls: true },
         ScenarioDef { property: "C05", name: "c05/parsers", run: hostile::run_c05_direct, quick_cases: 100_000, thorough_cases: 3_000_000, needs_tls: false },
         ScenarioDef { property: "C06", name: "c06/session", run: hostile::run_c06, quick_cases: 12_000, thorough_cases: 2_000_000, needs_tls: true },
         ScenarioDef { property: "C07", name: "c07/nla", run: hostile::run_c07, quick_cases: 12_000, thorough_cases: 2_000_000, needs_tls: true },
@@ -67,11 +67,11 @@ pub fn registry() -> Vec<ScenarioDef> {
         ScenarioDef { property: "C10", name: "c10/fastpath", run: c10::run, quick_cases: 3_000, thorough_cases: 400_000, needs_tls: true },
         ScenarioDef { property: "C11", name: "c11/input", run: c11::run, quick_cases: 3_000, thorough_cases: 400_000, needs_tls: true },
         ScenarioDef { property: "C12", name: "c12/automaton", run: c12::run, quick_cases: 2_500, thorough_cases: 300_000, needs_tls: true },
-        ScenarioDef { property: "C15", name: "c15/authenticate", run: nlmp::run_c15, quick_cases: 100_000, thorough_cases: 6_000_000, needs_tls: false },
-        ScenarioDef { property: "C16", name: "c16/sealing", run: nlmp::run_c16, quick_cases: 60_000, thorough_cases: 4_000_000, needs_tls: false },
+        ScenarioDef { property: "C15", name: "c15/authenticate", run: nlmp::run_c15, quick_cases: 100_000, thorough_cases: 15_000_000, needs_tls: false },
+        ScenarioDef { property: "C16", name: "c16/sealing", run: nlmp::run_c16, quick_cases: 60_000, thorough_cases: 10_000_000, needs_tls: false },
         ScenarioDef { property: "C17", name: "c17/secrets", run: nlmp::run_c17, quick_cases: 4_000, thorough_cases: 500_000, needs_tls: true },
-        ScenarioDef { property: "C13", name: "c13/deframe", run: c13::run, quick_cases: 200_000, thorough_cases: 4_000_000, needs_tls: false },
-        ScenarioDef { property: "C14", name: "c14/tpkt_write", run: c14::run_tpkt, quick_cases: 60_000, thorough_cases: 2_000_000, needs_tls: false },
-        ScenarioDef { property: "C14", name: "c14/link_write", run: c14::run_link, quick_cases: 40_000, thorough_cases: 1_000_000, needs_tls: false },
+        ScenarioDef { property: "C13", name: "c13/deframe", run: c13::run, quick_cases: 200_000, thorough_cases: 12_000_000, needs_tls: false },
+        ScenarioDef { property: "C14", name: "c14/tpkt_write", run: c14::run_tpkt, quick_cases: 60_000, thorough_cases: 8_000_000, needs_tls: false },
+        ScenarioDef { property: "C14", name: "c14/link_write", run: c14::run_link, quick_cases: 40_000, thorough_cases: 6_000_000, needs_tls: false },
     ]
 }
